@@ -115,6 +115,15 @@ pub fn replay(w: &Value) -> Option<bool> {
             });
             Some(r.is_ok())
         }
+        "generic-cosmetic-rejected" => {
+            // none of the (malformed, generic) rules may load: nothing is hidden anywhere
+            let rules = strs(&w["rules"]);
+            let e = Engine::from_rules_parametrised(&rules, Default::default(), true, true);
+            let c = e.url_cosmetic_resources(&g("url"));
+            let classes = strs(&w["classes"]);
+            let sel = e.hidden_class_id_selectors(&classes, &classes, &Default::default());
+            Some(c.hide_selectors.is_empty() && c.procedural_actions.is_empty() && sel.is_empty())
+        }
         "content-blocking-total" => {
             // converting the rule set must not panic
             let rules = strs(&w["rules"]);
